@@ -10,7 +10,7 @@ m = {
     "hooks": {
         "guard": "SOFTHSM_VERIF",
         "enable": "n/a - no guarded code exists: observation uses link-time --wrap, coverage callbacks and SOFTHSM2_CONF; build/gen.py --guard would add -DSOFTHSM_VERIF",
-        "baseline_off_cmd": "cmake --build /repo/_build -j16 && ctest --test-dir /repo/_build -j8 --timeout 900",
+        "baseline_off_cmd": "python3 tools/baseline_check.py",
         "source_commits": [],
         "add_only": True,
     },
